@@ -4,6 +4,10 @@
      evalpair <flags> <scriptSig> <scriptPubKey> <obits>                EvalScript(scriptSig) on the empty stack, then EvalScript(scriptPubKey)
      verify <flags> <scriptSig> <scriptPubKey> <obits> <n> <witness elem>*   VerifyScript
      vpair <f> <g> <scriptSig> <scriptPubKey> <obits> <n> <witness elem>*    VerifyScript under flag sets f and g (f subset of g)
+     tapspend <flags> <leafver> <depth 0|1> <leaf script> <obits> <commit_ok> <control trunc> <annex|x> <n> <arg>*
+                                                                        VerifyScript on a taproot script-path spend of a real tree (NUMS internal key)
+     tappair <f> <g> ... (as tapspend)                                  the same under two flag sets
+     tapkey <flags> <obits> <sig> <annex|x>                             taproot key-path spend
      num <vch> <require_minimal 0|1> <max_size>                         CScriptNum(vch, fRequireMinimal, nMaxNumSize)
      enc <int64>                                                        CScriptNum::serialize
      castbool <vch>
@@ -64,15 +68,36 @@ let show_stack (s : Model.z list list) (* top first *) =
   Printf.sprintf "n=%d%s" (List.length l) (String.concat "" (List.map (fun e -> " " ^ hex_of_zbytes e) l))
 let rec take k l = if k = 0 then [] else match l with x :: r -> x :: take (k - 1) r | [] -> failwith "short case line"
 
-let do_verify flags ssig spk obits wit =
+(* commit: the taproot commitment oracle.  For byte strings that do not come from a real taproot tree the commitment
+   check of the implementation fails (up to a hash collision), hence `false` for plain verify cases. *)
+let do_verify ?(commit = false) flags ssig spk obits wit =
   let fl = z_of_string flags in
   if not (Model.flags_valid fl) then "INVALIDFLAGS" else
-  (match Model.verify_script sha256 ripemd160 sha1 fl (Model.stub_checker (z_of_string obits)) (zbytes_of_hex ssig) (zbytes_of_hex spk) wit with
+  (match Model.verify_script sha256 ripemd160 sha1 fl (Model.stub_checker (z_of_string obits)) (fun _ _ _ -> commit) (zbytes_of_hex ssig) (zbytes_of_hex spk) wit with
    | None -> "UNMODELLED"
    | Some (Model.Ok _) -> "OK"
    | Some (Model.Err e) -> "ERR " ^ err_name e)
 
+(* taproot script-path / key-path spends: the C++ side builds a real tree on the NUMS key; here the control block and the
+   output key are stand-ins of the same sizes (the model looks only at sizes, the leaf-version byte and the oracle) *)
+let zeros n = List.init n (fun _ -> z_of_int 0)
+let tap_spk = hex_of_zbytes (z_of_int 81 :: z_of_int 32 :: List.init 32 (fun _ -> z_of_int 1))
+let tap_witness leafver depth script commit_ok trunc annex args =
+  let full = 33 + 32 * int_of_string depth in
+  let size = max 0 (full - int_of_string trunc) in
+  let control = List.filteri (fun i _ -> i < size) (z_of_int (int_of_string leafver) :: zeros (max 0 (size - 1))) in
+  let wit = List.map zbytes_of_hex args @ [zbytes_of_hex script; control] @ (if annex = "x" then [] else [zbytes_of_hex annex]) in
+  (wit, commit_ok = "1" && trunc = "0")
+
 let model _ line = match words line with
+  | "tapspend" :: flags :: leafver :: depth :: script :: obits :: commit_ok :: trunc :: annex :: n :: elems ->
+    let (wit, commit) = tap_witness leafver depth script commit_ok trunc annex (take (int_of_string n) elems) in
+    do_verify ~commit flags "-" tap_spk obits wit
+  | "tappair" :: f :: g :: leafver :: depth :: script :: obits :: commit_ok :: trunc :: annex :: n :: elems ->
+    let (wit, commit) = tap_witness leafver depth script commit_ok trunc annex (take (int_of_string n) elems) in
+    do_verify ~commit f "-" tap_spk obits wit ^ " | " ^ do_verify ~commit g "-" tap_spk obits wit
+  | ["tapkey"; flags; obits; sg; annex] ->
+    do_verify flags "-" tap_spk obits ([zbytes_of_hex sg] @ (if annex = "x" then [] else [zbytes_of_hex annex]))
   | "eval" :: sv :: flags :: script :: obits :: weight :: n :: elems ->
     let stack = List.rev (List.map zbytes_of_hex (take (int_of_string n) elems)) in
     (match Model.eval_script_state sha256 ripemd160 sha1 (z_of_string flags) (Model.stub_checker (z_of_string obits)) (sv_of sv)
@@ -114,7 +139,7 @@ let model _ line = match words line with
 (* C11's own predicate on what the implementation returned for a pair of flag sets f (subset) and g:
    success under the larger set implies success under the smaller one; and each run was deterministic *)
 let holds _ c impl = match words c with
-  | "vpair" :: _ ->
+  | "vpair" :: _ | "tappair" :: _ ->
     (match Str.split (Str.regexp_string " | ") impl with
      | [rf; rg] ->
        if rf = "NONDET" || rg = "NONDET" then "fail VerifyScript returned different results on two identical calls"
